@@ -1015,3 +1015,114 @@ def _test_node_precedes(ctx, fn, guarded, later):
         if tn.kind == 'test' and cfg.exists_path(ctx.node(fn, later), tn):
             return False
     return True
+
+
+@obligation('C09-l', 'T11 T13', 'NUTS validity flags: a second sub-tree is grown only from a valid '
+            'first one; validity is the conjunction of the sub-trees\' validity and the two '
+            'no-U-turn tests; doubling continues only while the trajectory is valid and the '
+            'depth limit is not exceeded', floor=4,
+            necessary='growing from an invalid (diverged or outside-support) sub-tree, or a '
+                      'validity that is a disjunction, keeps extending and selecting from a '
+                      'trajectory that left the slice')
+def c09_l(ctx):
+    nuts = ctx.fn(M + ':nuts')
+    bt = [g for g in ctx.reachable([nuts], depth=1, may=False)
+          if g.module.name == M and g.name != 'nuts' and
+          any(isinstance(n, ast.Call) and ctx.ex(g).term(n.func) == ('param', 'grad_target')
+              for n in own_nodes(g.node))]
+    if not bt:
+        raise AnchorMissing('NUTS tree helper not found')
+    g = bt[0]
+    exg = ctx.ex(g)
+    recs = []
+    for c in own_nodes(g.node):
+        if isinstance(c, ast.Call) and isinstance(c.func, ast.Name) and c.func.id == g.name:
+            st = getattr(c, '_parent', None)
+            if isinstance(st, ast.Assign) and isinstance(st.targets[0], ast.Tuple) and \
+                    len(st.targets[0].elts) == 11:
+                d = sum(1 for a in _ancestors(st, g.node) if isinstance(a, ast.If))
+                recs.append((st, [e.id if isinstance(e, ast.Name) else None
+                                  for e in st.targets[0].elts], d))
+    if len(recs) < 2:
+        ctx.undecided('recursive calls of the tree helper not recognised')
+    dmin = min(d for (_, _, d) in recs)
+    first = [r for r in recs if r[2] == dmin]
+    second = [r for r in recs if r[2] > dmin]
+    okname = first[0][1][6]
+    ok = len(first) == 1 and bool(second) and all(
+        any(p and t == ('name', okname) for (t, p, _) in _raw_guards(ctx, g, st))
+        for (st, _, _) in second) and all(names[6] == okname for (_, names, _) in second)
+    ctx.check(ok, g, 'second sub-tree grown only from a valid first one', 'if sub_ok: recurse',
+              'the second recursive call is not made exactly when the first sub-tree is valid',
+              fn=g, node=second[0][0] if second else g.node)
+
+    def uturn_conj(t, flag):
+        """t == flag and (inner(r - l, ml) >= 0) and (inner(r - l, mr) >= 0)"""
+        if not (t[0] == 'bool' and t[1] == 'and' and len(t[2]) == 3):
+            return False
+        parts = list(t[2])
+        flags = [x for x in parts if x == ('name', flag)]
+        tests = [x for x in parts if match_any(x, ('np.inner(_r - _l, _m) >= 0',
+                                                   '0 <= np.inner(_r - _l, _m)')) is not None]
+        if len(flags) != 1 or len(tests) != 2:
+            return False
+        ms = [match_any(x, ('np.inner(_r - _l, _m) >= 0', '0 <= np.inner(_r - _l, _m)'))
+              for x in tests]
+        return ms[0]['r'] == ms[1]['r'] and ms[0]['l'] == ms[1]['l'] and \
+            ms[0]['m'] != ms[1]['m'] and ms[0]['r'] != ms[0]['l']
+    upd = [s for s in own_nodes(g.node) if isinstance(s, ast.Assign) and
+           isinstance(s.targets[0], ast.Name) and s.targets[0].id == okname and
+           isinstance(s.value, ast.BoolOp)]
+    ok = len(upd) == 1 and uturn_conj(exg.raw(upd[0].value), okname) and bool(second) and \
+        all(cfg_of(g).exists_path(ctx.node(g, st), ctx.node(g, upd[0])) for (st, _, _) in second)
+    ctx.check(ok, g, 'sub-tree validity = both halves valid and no U-turn at either end',
+              'sub_ok = sub_ok and inner(r - l, m_l) >= 0 and inner(r - l, m_r) >= 0',
+              'the validity of the doubled sub-tree is not the conjunction of the second half\'s '
+              'validity and the two no-U-turn tests over its own end points', fn=g,
+              node=upd[0] if upd else g.node)
+    # main loop
+    exn = ctx.ex(nuts)
+    calls = [c for c in own_nodes(nuts.node) if isinstance(c, ast.Call) and
+             isinstance(c.func, ast.Name) and c.func.id == g.name]
+    lo = enclosing_loop(calls[0]) if calls else None
+    if not isinstance(lo, ast.While):
+        ctx.undecided('doubling loop of the main function not recognised')
+    st0 = getattr(calls[0], '_parent', None)
+    subok = st0.targets[0].elts[6].id if isinstance(st0, ast.Assign) and \
+        isinstance(st0.targets[0], ast.Tuple) and len(st0.targets[0].elts) == 11 else None
+    wt = exn.raw(lo.test)
+    flag = None
+    okw = wt[0] == 'bool' and wt[1] == 'and' and len(wt[2]) == 2
+    if okw:
+        names = [x for x in wt[2] if x[0] == 'name']
+        lim = [x for x in wt[2] if match_any(x, ('_d <= max_depth', 'max_depth >= _d',
+                                                 '_d < max_depth + 1')) is not None]
+        okw = len(names) == 1 and len(lim) == 1
+        flag = names[0][1] if names else None
+    ctx.check(okw, nuts, 'doubling continues while the trajectory is valid and within the depth '
+              'limit', 'while all_ok and depth <= max_depth',
+              'the doubling loop does not run exactly while the trajectory is valid and the '
+              'depth limit is not exceeded', fn=nuts, node=lo)
+    if flag is not None and subok is not None:
+        upd = [s for s in ast.walk(lo) if isinstance(s, ast.Assign) and
+               isinstance(s.targets[0], ast.Name) and s.targets[0].id == flag]
+        ok = len(upd) == 1 and uturn_conj(exn.raw(upd[0].value), subok)
+        init = [s for s in own_nodes(nuts.node) if isinstance(s, ast.Assign) and
+                isinstance(s.targets[0], ast.Name) and s.targets[0].id == flag and
+                not _inside(s, lo)]
+        ok = ok and len(init) == 1 and exn.raw(init[0].value) == ('const', True)
+        ctx.check(ok, nuts, 'trajectory validity = last sub-tree valid and no U-turn between the '
+                  'trajectory\'s ends', 'all_ok = sub_ok and inner(...) >= 0 and inner(...) >= 0',
+                  'the validity of the trajectory is not (re)computed after every doubling as '
+                  'the conjunction of the sub-tree\'s validity and the two no-U-turn tests',
+                  fn=nuts, node=upd[0] if upd else lo)
+        dep = [x for x in wt[2] if x[0] != 'name']
+        dm = match_any(dep[0], ('_d <= max_depth', 'max_depth >= _d', '_d < max_depth + 1')) \
+            if dep else None
+        dname = dm['d'][1] if dm is not None and dm['d'][0] == 'name' else None
+        incs = [s for s in lo.body if isinstance(s, ast.AugAssign) and isinstance(s.op, ast.Add)
+                and isinstance(s.target, ast.Name) and s.target.id == dname and
+                exn.raw(s.value) == ('const', 1)]
+        ctx.check(len(incs) == 1, nuts, 'depth advances with every doubling', 'depth += 1',
+                  'the tree depth is not advanced by one in every trip of the doubling loop',
+                  fn=nuts, node=incs[0] if incs else lo)
